@@ -2,7 +2,9 @@
 #include <cstdio>
 #include <cstring>
 #include <exception>
+#include <fstream>
 #include <iostream>
+#include <stdexcept>
 
 #include "hexsim.hpp"
 #include "hexsimio.hpp"
@@ -54,6 +56,10 @@ int main(int argc, const char *argv[]) {
     if (!filename) {
       help(argv);
       return 1;
+    }
+    // The binary must be readable (load() does not check).
+    if (!std::ifstream(filename, std::ios::binary).is_open()) {
+      throw std::runtime_error("could not open file");
     }
     hexsim::Processor p(std::cin, std::cout, maxCycles);
     p.setTracing(trace);
